@@ -239,15 +239,16 @@ type Result struct {
 }
 
 type task struct {
-	id      int
-	wake    chan struct{}
-	done    bool
-	blocked *mutexState
-	steps   uint64
-	vc      vclock
-	owned   int
-	fn      func()
-	panicV  any
+	id        int
+	wake      chan struct{}
+	done      bool
+	blocked   *mutexState
+	wantWrite bool // blocked waiting for the write lock (readers block it too)
+	steps     uint64
+	vc        vclock
+	owned     int
+	fn        func()
+	panicV    any
 }
 
 type shadow struct {
@@ -282,18 +283,13 @@ func (s *Sched) runnable(except *task) []*task {
 		if t.done || t == except {
 			continue
 		}
-		if t.blocked != nil && (t.blocked.held || t.blocked.readers > 0 && t.blockedWrite()) {
+		if t.blocked != nil && (t.blocked.held || t.blocked.readers > 0 && t.wantWrite) {
 			continue
 		}
 		r = append(r, t)
 	}
 	return r
 }
-
-// blockedWrite: a task blocked on an RWMutex for writing also waits for readers.
-// We do not distinguish in task state; conservatively treat a task blocked while
-// readers exist as still blocked only if the mutex is write-held or it wants to write.
-func (t *task) blockedWrite() bool { return true }
 
 // RunTasks executes fns as cooperative tasks under cfg and returns when all
 // have ended, or a deadlock or overrun was detected. Tasks left blocked are
@@ -486,7 +482,7 @@ func (s *Sched) acquire(site uint32, ms *mutexState, write bool) {
 		if ms.owner == t {
 			s.res.SelfLock = append(s.res.SelfLock, t.id)
 		}
-		t.blocked = ms
+		t.blocked, t.wantWrite = ms, write
 		r := s.runnable(t)
 		if len(r) == 0 {
 			s.res.Deadlock = true
